@@ -2,7 +2,7 @@
 From stdpp Require Import gmap list.
 From Coq Require Import ZArith Lia.
 From Verif Require Import S1.Model C07.Spec C07.Proofs C03.Model C03.Spec
-     C03.ProofsS C03.ProofsF C03.Proofs C03.ProofsR C03.ProofsU C03.ProofsP.
+     C03.ProofsS C03.ProofsF C03.Proofs C03.ProofsR C03.ProofsU C03.ProofsP C03.ProofsC.
 Open Scope Z_scope.
 
 (* ===================== structural layer ===================== *)
@@ -103,19 +103,22 @@ Print Assumptions C03_honest_wins_at_tip.
 (* C03_honest_wins, checkpoint lists (resolveConflict): for every set of
    checkpoint lists containing the list tc of an honest peer p (the longest:
    cfHandler caps the lists at the header tip) that passes the hard-coded
-   table, every choice the code makes among map elements (hint), every
-   behaviour of the others within the class: p is not banned, a returned list
+   table and does not contradict the cfheaders p serves, every choice the code
+   makes among map elements (hint), every behaviour of the others within the
+   class: p is not banned (in particular not by the F15 repair, which bans a
+   peer whose checkpoint contradicts its own cfheaders), a returned list
    agrees with tc wherever both are defined, and when a list is returned
    every peer whose list contradicts tc has been banned. *)
-Theorem C03_honest_wins_checkpoints : forall hard v env raws hint cps p tc tfilt,
+Theorem C03_honest_wins_checkpoints : forall H hard v env raws hint cps p tc tfilt,
   In (p, tc) cps -> (forall l, In (p, l) cps -> l = tc) ->
   peer_hard_bad hard tc = false ->
   (forall q l, In (q, l) cps -> (length l <= length tc)%nat) ->
   (forall startH, exists tm,
       honest_in tm p (fst (get_headers v startH raws)) /\
-      forall i : nat, (i < zn (snd (get_headers v startH raws)))%nat ->
-                      good_idx env tfilt tm startH p (Z.of_nat i)) ->
-  let '(bans, res, flag) := resolve_conflict hard v env raws hint cps in
+      (forall i : nat, (i < zn (snd (get_headers v startH raws)))%nat ->
+                       good_idx env tfilt tm startH p (Z.of_nat i)) /\
+      (forall d, startH = u32 (d * INTERVAL) -> cp_contradicts H d tc tm = false)) ->
+  let '(bans, res) := resolve_conflict H hard v env raws hint cps in
   ~ In p bans /\
   (forall l, res = Some l -> forall (i : nat) x y, l !! i = Some x -> tc !! i = Some y -> x = y) /\
   (forall l, res = Some l -> forall q lq (i : nat) x y,
@@ -123,41 +126,186 @@ Theorem C03_honest_wins_checkpoints : forall hard v env raws hint cps p tc tfilt
 Proof. exact resolve_honest_wins. Qed.
 Print Assumptions C03_honest_wins_checkpoints.
 
-(* "Every provably inconsistent liar is identified" is FALSE for checkpoint
-   lists (F15): peer 2 serves a false checkpoint list and the true cfheaders;
-   all answers agree, nobody is banned, no list is returned (ghost flag 1),
-   and the caller can only retry with the same peers. *)
-Theorem C03_liars_banned_refuted :
-  resolve_conflict (fun _ => None) f15_view f15_env f15_raws 0 f15_cps = ([], None, 1) /\
-  fst (get_headers f15_view 0 f15_raws) = [(1, f15_msg); (2, f15_msg)].
-Proof. exact f15_witness. Qed.
-Print Assumptions C03_liars_banned_refuted.
-
-(* ... unless the ghost flag is raised (R_cp_only_liar, flag 1; flag 2 marks
-   the sibling case of answers with different previous headers): whenever the
-   flag is clear, a call of resolveConflict with an honest peer, behaviours in
-   the class, available blocks/headers and a readable store either returns a
-   checkpoint list or has banned at least one peer (never the honest one, by
-   C03_honest_wins_checkpoints) - so the retry loop of cfHandler runs with
-   strictly fewer peers. *)
-Theorem C03_liars_banned_unless : forall hard v env raws hint cps p tc tfilt bans res flag,
+(* C03_liars_banned (F15 repaired; was refuted): every call of resolveConflict
+   with an honest peer p makes progress - it returns a checkpoint list or it
+   has banned at least one of the peers whose list it was given (never p, by
+   the theorem above).  Hypotheses: behaviours in the class and header, block
+   and filters available at the heights asked; every accepted getcfheaders
+   answer names the same previous header (a peer lying there is not
+   identified by the code: the call fails without a ban); the checkpoint
+   tc[d] of p is the filter header that p's cfheaders for interval d determine
+   (chain of the first INTERVAL+1 filter hashes from the previous header);
+   the lists are capped at the block header tip (cfHandler does that), below
+   1,000,000; the filter header store holds nothing that contradicts tc and
+   can be read. *)
+Theorem C03_liars_banned_progress : forall H hard v env raws hint cps p tc tfilt tx tiph bans res,
   In (p, tc) cps -> (forall l, In (p, l) cps -> l = tc) ->
   peer_hard_bad hard tc = false ->
   (forall q l, In (q, l) cps -> (length l <= length tc)%nat) ->
+  v_btip v = Some (tx, tiph) -> 0 <= tiph < 1000000 -> zlen tc * INTERVAL <= tiph ->
   (forall startH, exists tm,
       honest_in tm p (fst (get_headers v startH raws)) /\
-      forall i : nat, (i < zn (snd (get_headers v startH raws)))%nat ->
-                      good_idx env tfilt tm startH p (Z.of_nat i) /\ env_avail env startH (Z.of_nat i)) ->
+      (forall i : nat, (i < zn (snd (get_headers v startH raws)))%nat ->
+          good_idx env tfilt tm startH p (Z.of_nat i) /\ env_avail env startH (Z.of_nat i)) /\
+      (forall q mq, In (q, mq) (fst (get_headers v startH raws)) -> m_prev mq = m_prev tm) /\
+      (forall d c, startH = u32 (d * INTERVAL) -> zget tc d = Some c ->
+          chain_last H (m_prev tm) (take (zn (INTERVAL + 1)) (m_hashes tm)) = c)) ->
+  (forall (i : nat) c hd, tc !! i = Some c ->
+      v_fh v (u32 ((Z.of_nat i + 1) * INTERVAL)) = Some hd -> hd = c) ->
   (forall l, check_sanity l v <> SaneErr) ->
-  resolve_conflict hard v env raws hint cps = (bans, res, flag) ->
-  flag = 0 -> res <> None \/ bans <> [].
-Proof. exact resolve_progress_unless. Qed.
-Print Assumptions C03_liars_banned_unless.
+  resolve_conflict H hard v env raws hint cps = (bans, res) ->
+  res <> None \/ exists q, In q bans /\ In q (List.map fst cps).
+Proof. exact resolve_progress. Qed.
+Print Assumptions C03_liars_banned_progress.
+
+(* ... hence the retry loop of cfHandler around resolveConflict ends: if in
+   every round the honest peer is connected, the lists of a round come from
+   peers of the previous round that were not banned in it (a banned peer is
+   disconnected; no new peers), then within as many rounds as there were
+   peers at the start a non-empty checkpoint list is returned; it agrees with
+   the honest list and the honest peer is never banned.  The getcfheaders
+   answers, filters and map choices of every round are arbitrary (within the
+   hypotheses above). *)
+Theorem C03_retry_loop_terminates : forall H hard v p tc tfilt tx tiph rounds r0 rest,
+  peer_hard_bad hard tc = false ->
+  v_btip v = Some (tx, tiph) -> 0 <= tiph < 1000000 -> zlen tc * INTERVAL <= tiph ->
+  store_agrees v tc -> (forall l, check_sanity l v <> SaneErr) ->
+  rounds = r0 :: rest -> rounds_ok H hard v p tc tfilt rounds ->
+  (length (rd_cps r0) <= length rounds)%nat ->
+  ~ In p (fst (cf_retry H hard v rounds)) /\
+  exists l, snd (cf_retry H hard v rounds) = Some l /\ l <> [] /\
+            forall (i : nat) x y, l !! i = Some x -> tc !! i = Some y -> x = y.
+Proof. exact cf_retry_terminates. Qed.
+Print Assumptions C03_retry_loop_terminates.
+
+(* The history that refuted C03_liars_banned before the repair (F15): peer 2
+   serves a false checkpoint list and the true cfheaders.  Now it is banned
+   and the true list is returned, whichever element the code picks. *)
+Example C03_f15_regression :
+  resolve_conflict f15_H (fun _ => None) f15_view f15_env f15_raws 0 f15_cps = ([2], Some [501; 502]) /\
+  resolve_conflict f15_H (fun _ => None) f15_view f15_env f15_raws 2 f15_cps = ([2], Some [501; 502]) /\
+  fst (get_headers f15_view 0 f15_raws) = [(1, f15_msg); (2, f15_msg)].
+Proof. exact f15_fixed_run. Qed.
+Print Assumptions C03_f15_regression.
+
+(* ===================== checkpointed fetch ===================== *)
+
+(* getCheckpointedCFHeaders (handleResponse + the re-ordering writer loop),
+   for EVERY list of arrivals (any order, duplicates, answers from any peer,
+   malformed answers) and every store, checkpoint list and genesis header.
+
+   (1) Whatever arrives, panic or not: the block chain is untouched and the
+   filter chain grows by a sequence of batches, each written by a successful
+   writeCFHeadersMsg at the tip of that moment (so each names the tip as its
+   previous header, is the hash chain of its filter hashes from there, and
+   ends exactly at the height of its stop hash: nothing is written twice or
+   at a wrong height); every batch is the message of an arrival that
+   handleResponse delivered (or its trimmed form, for the first batch). *)
+Theorem C03_checkpointed_writes_verified : forall H genesis a cps ars bans a' pan,
+  get_checkpointed H genesis a cps ars = (bans, a', pan) ->
+  exists ms, writes H a ms a' /\
+    abl a' = abl a /\
+    afl a' = afl a ++ List.concat (List.map (fun m => chain_from H (m_prev m) (m_hashes m)) ms) /\
+    forall m, In m ms -> exists qs ar,
+      mk_queries (S (length cps)) a (zlen cps) ((zlen (afl a) - 1) / INTERVAL) = Some qs /\
+      In ar ars /\ delivers H genesis cps qs ar = true /\
+      (m = a_msg ar \/ exists prev off, m = trim prev off (a_msg ar)).
+Proof. exact checkpointed_writes_full. Qed.
+Print Assumptions C03_checkpointed_writes_verified.
+
+(* what a chain of successful writes is *)
+Theorem C03_checkpointed_batches : forall H a ms a', writes H a ms a' ->
+  forall ms1 m ms2, ms = ms1 ++ m :: ms2 ->
+  exists a1 a2 hd ht, writes H a ms1 a1 /\ awrite_cf H a1 m = (a2, Some (hd, ht)) /\ writes H a2 ms2 a' /\
+    last (afl a1) = Some (m_prev m) /\ m_hashes m <> [] /\
+    afl a2 = afl a1 ++ chain_from H (m_prev m) (m_hashes m) /\
+    index_of2 (m_stop m) (abl a) 0 = Some (zlen (afl a2) - 1).
+Proof. exact writes_each. Qed.
+Print Assumptions C03_checkpointed_batches.
+
+(* what "delivered by handleResponse" means: the answer is of the regular
+   filter type, carries the stop hash of its request, has exactly the number
+   of filter hashes of the requested checkpoint intervals, starts at the
+   previous checkpoint (or genesis) and its hash chain ends in the next
+   checkpoint. *)
+Theorem C03_checkpointed_delivers_spec : forall H genesis cps qs ar,
+  delivers H genesis cps qs ar = true <->
+  exists ci stop, zget qs (a_q ar) = Some (ci, stop) /\ a_reg ar = true /\ m_stop (a_msg ar) = stop /\
+    zlen (m_hashes (a_msg ar)) = (nci_of cps ci - ci + 1) * INTERVAL /\
+    verify_checkpoint H (prevcp_of genesis cps ci) (default 0 (zget cps (nci_of cps ci))) (a_msg ar) = true.
+Proof. exact delivers_spec. Qed.
+Print Assumptions C03_checkpointed_delivers_spec.
+
+(* (2) An answer to an unfinished request that has the right stop hash but
+   not the right number of hashes, or does not match its checkpoints, is
+   rejected and its peer is banned. *)
+Theorem C03_checkpointed_rejects : forall H genesis a cps l1 ar l2 bans a' pan curHdr qs ci stop,
+  last (afl a) = Some curHdr ->
+  mk_queries (S (length cps)) a (zlen cps) ((zlen (afl a) - 1) / INTERVAL) = Some qs ->
+  get_checkpointed H genesis a cps (l1 ++ ar :: l2) = (bans, a', pan) ->
+  zget qs (a_q ar) = Some (ci, stop) -> a_reg ar = true -> m_stop (a_msg ar) = stop ->
+  (forall x, In x l1 -> a_q x = a_q ar -> delivers H genesis cps qs x = false) ->
+  zlen (m_hashes (a_msg ar)) <> (nci_of cps ci - ci + 1) * INTERVAL \/
+  verify_checkpoint H (prevcp_of genesis cps ci) (default 0 (zget cps (nci_of cps ci))) (a_msg ar) = false ->
+  In (a_peer ar) bans /\ delivers H genesis cps qs ar = false.
+Proof. exact checkpointed_rejects. Qed.
+Print Assumptions C03_checkpointed_rejects.
+
+(* (3) Order independence: the final store (and whether the code panics) is
+   that of the SEQUENTIAL writer that walks the requests in height order and
+   writes, for each, the first delivered answer to it ([fv]), the first batch
+   trimmed to the part above the store's tip.  So the result depends on the
+   arrivals only through "the first delivered answer of each request":
+   interleaving, duplicates and the answering peers change nothing.
+   Hypotheses: fewer than 1,000,000 block headers (no uint32 wrap), and no
+   header written in the sequential run equals the header the store's tip
+   had at the start - the code recognises "the first batch" by comparing
+   header VALUES, so such a hash collision would make it trim a later batch. *)
+Theorem C03_checkpointed_order_independent : forall H genesis a cps ars bans a' pan curHdr qs fuel,
+  zlen (abl a) < 1000000 ->
+  last (afl a) = Some curHdr ->
+  mk_queries (S (length cps)) a (zlen cps) ((zlen (afl a) - 1) / INTERVAL) = Some qs ->
+  (length cps < fuel)%nat ->
+  get_checkpointed H genesis a cps ars = (bans, a', pan) ->
+  forall sa tips sp,
+  seq_write H fuel (fv H genesis cps qs ars) true a curHdr (zlen (afl a) - 1) ((zlen (afl a) - 1) / INTERVAL)
+    = (sa, tips, sp) ->
+  ~ In curHdr tips ->
+  a' = sa /\ pan = sp.
+Proof. exact checkpointed_order_independent. Qed.
+Print Assumptions C03_checkpointed_order_independent.
+
+(* (4) Completeness: without a panic, if the requests 0..j (consecutive from
+   the first) all have a delivered answer somewhere among the arrivals, all of
+   them have been written: the filter tip is at least at the end of request j. *)
+Theorem C03_checkpointed_complete : forall H genesis a cps ars bans a' curHdr qs (j : nat) cj stopj,
+  zlen (abl a) < 1000000 ->
+  last (afl a) = Some curHdr ->
+  mk_queries (S (length cps)) a (zlen cps) ((zlen (afl a) - 1) / INTERVAL) = Some qs ->
+  get_checkpointed H genesis a cps ars = (bans, a', false) ->
+  ~ In curHdr (snd (fst (seq_write H (S (length cps)) (fv H genesis cps qs ars) true a curHdr
+                           (zlen (afl a) - 1) ((zlen (afl a) - 1) / INTERVAL)))) ->
+  qs !! j = Some (cj, stopj) ->
+  (forall k, (k <= j)%nat -> first_ok H genesis cps qs ars (Z.of_nat k) <> None) ->
+  Z.min (cj + 2) (zlen cps) * INTERVAL <= zlen (afl a') - 1.
+Proof. exact checkpointed_complete. Qed.
+Print Assumptions C03_checkpointed_complete.
+
+(* the hypotheses are met by a run with out-of-order, short, lying and
+   duplicate answers (two liars banned, 3000 headers written, same store as
+   for the in-order run) *)
+Example C03_checkpointed_nonvacuous :
+  (let '(bans, a', pan) := get_checkpointed Ex.H0 Ex.g Ex.a0 Ex.cps Ex.ars1 in
+   (bans, pan, zlen (afl a'), last (afl a'))) = ([9; 8], false, 3001, Some Ex.c3) /\
+  (let r := get_checkpointed Ex.H0 Ex.g Ex.a0 Ex.cps Ex.ars1 in (snd (fst r), snd r)) =
+  (let r := get_checkpointed Ex.H0 Ex.g Ex.a0 Ex.cps Ex.ars2 in (snd (fst r), snd r)).
+Proof. exact (conj Ex.ex_run Ex.ex_order_independent). Qed.
+Print Assumptions C03_checkpointed_nonvacuous.
 
 (* The replay visits only the indices at which two accepted answers differ;
    that is the same function. *)
-Theorem C03_fast_ix_equiv_resolve : forall hard v env raws hint cps,
-  resolve_conflict_ix fast_ix hard v env raws hint cps = resolve_conflict hard v env raws hint cps.
+Theorem C03_fast_ix_equiv_resolve : forall H hard v env raws hint cps,
+  resolve_conflict_ix H fast_ix hard v env raws hint cps = resolve_conflict H hard v env raws hint cps.
 Proof. exact fast_ix_equiv_resolve. Qed.
 Print Assumptions C03_fast_ix_equiv_resolve.
 
